@@ -27,6 +27,7 @@ ASSUMPTIONS = [
     "the operation listing is taken as given (C02)",
     "wait durations are integers (OpenQL's wait takes an integer; fractional library durations are outside the claim)",
     "the top circuit's own repetition count is not part of the export (it is applied by apply_modifiers); counts are generated on sub-circuits only",
+    "a Barrier over an empty qubit list is exported as kernel.barrier([]); the real compiler widens that to all platform qubits, which the compiled part normalises back",
     "recording double: kernel.gate / cz / barrier / wait and program.add_kernel / add_program / add_for are the only OpenQL calls the exporter may make; the compiled part checks the double against the real compiler",
 ]
 
@@ -176,7 +177,7 @@ def integer_waits(program):
 def cfg():
     kinds = list(P.ALL_KINDS) + ["Wait", "CPhase", "Rx180", "Barrier", "DispersiveMeasure"]
     return P.GenCfg(kinds=kinds, nq=4, max_items=7, max_depth=2, p_sub=30, p_rel=25, max_reps=3, top_reps=False,
-                    globals_=False, max_total_leaves=40)
+                    globals_=False, max_total_leaves=40, empty_barrier=True)
 
 
 def strat():
@@ -328,6 +329,8 @@ def body_compiled(case, ctx):
         if text is None:
             return
         got = parse_cqasm(text)
+        # real OpenQL expands a barrier over no qubits to a barrier over every platform qubit (0..N-1, N >> generated qubits)
+        got = [(n, () if (n == "barrier" and len(q) > 16 and q == tuple(range(len(q)))) else q) for n, q in got]
         # real OpenQL writes a zero-length wait as a barrier on the same qubits
         want = [(("barrier" if (n == "wait" and d == 0) else n), q) for n, q, d in exp]
         if got != want:
